@@ -17,7 +17,8 @@ extern "C" int LLVMFuzzerTestOneInput(const uint8_t* data, size_t size) {
   fuzz::g_allocLimit = 64 * (uint64_t)size + 1000;
   fuzz::begin(0);
   if (mode == 0) {
-    Json::Parser parser; Variant v;
+    static Json::Parser* reused = new Json::Parser;   // a parser object is reused for many documents
+    Json::Parser fresh; Json::Parser& parser = (fuzz::st().execs % 4) ? *reused : fresh; Variant v;
     bool ok = parser.parse(text, v);
     if (!ok) {
       std::string e = jsonref::checkErrorPos(stext, parser.getErrorLine(), parser.getErrorColumn());
